@@ -442,6 +442,10 @@ class ClientWorldObjectManager:
             # an explicit follow-up update?
             child_obj = region_state.lookup_localid(child_id)
             if child_obj and child_obj.PCode == PCode.AVATAR:
+                if not obj:
+                    # Its parent was never seen, so it's still an orphan. Put it back
+                    # in the orphanage that `collect_orphans()` just emptied.
+                    region_state._track_orphan(child_id, local_id)
                 continue
             self._kill_object_by_local_id(region_state, child_id)
 
